@@ -490,6 +490,31 @@ class Facts:
                 pattern, len(r), [b.path for b in r][:6]))
         return r[0]
 
+    def promoted_of(self, body):
+        pre = body.path + "::{promoted#"
+        return [b for p, b in self.bodies.items() if b.path.startswith(pre) and b.unit == body.unit]
+
+    def const_refs(self, body):
+        """paths of const/static items referenced by a body (looking through its promoteds)"""
+        out = set()
+        for b in [body] + self.promoted_of(body):
+            for bi, si, s in b.stmts():
+                if s["k"] == "assign":
+                    for o in rvalue_operands(s["r"]):
+                        v = const_val(o)
+                        if v:
+                            for k in ("unevaluated", "static"):
+                                if k in v:
+                                    out.add(v[k])
+            for bi, t in b.calls():
+                for a in t["args"]:
+                    v = const_val(a)
+                    if v:
+                        for k in ("unevaluated", "static"):
+                            if k in v:
+                                out.add(v[k])
+        return out
+
     def closures_of(self, body):
         pre = body.path + "::{closure#"
         return [b for p, b in self.bodies.items() if b.path.startswith(pre) and b.unit == body.unit]
@@ -787,3 +812,74 @@ def forward_locals(body, start_locals, transparent=is_transparent, through_agg=F
                     seen.add(t["dest"]["l"])
                     changed = True
     return seen
+
+
+def split_generic_args(a):
+    """'[A<B, C>, D]' -> ['A<B, C>', 'D'] (top-level split)"""
+    a = a.strip()
+    if a.startswith("[") and a.endswith("]"):
+        a = a[1:-1]
+    out, depth, cur = [], 0, ""
+    for ch in a:
+        if ch in "<([{":
+            depth += 1
+        elif ch in ">)]}":
+            depth -= 1
+        if ch == "," and depth == 0:
+            out.append(cur.strip())
+            cur = ""
+        else:
+            cur += ch
+    if cur.strip():
+        out.append(cur.strip())
+    return out
+
+
+def operand_locals(op):
+    if op["k"] in ("copy", "move"):
+        ls = [op["p"]["l"]]
+        for e in op["p"]["pr"]:
+            if e[0] == "index":
+                ls.append(e[1])
+        return ls
+    return []
+
+
+def taint(body, seeds):
+    """Forward may-taint over base locals (field insensitive, flow insensitive).
+    Returns (tainted_locals, sinks, escapes) where sinks = [(block, callee, arg_index)] are calls
+    receiving a tainted argument and escapes is True when the return place becomes tainted."""
+    t = set(seeds)
+    changed = True
+    while changed:
+        changed = False
+        for bi, si, s in body.stmts():
+            if s["k"] != "assign":
+                continue
+            r = s["r"]
+            srcs = []
+            if r["k"] in ("ref", "copyforderef", "rawptr", "discr"):
+                srcs = [r["p"]["l"]]
+            else:
+                for o in rvalue_operands(r):
+                    srcs += operand_locals(o)
+            if any(x in t for x in srcs) and s["p"]["l"] not in t:
+                t.add(s["p"]["l"])
+                changed = True
+        for bi, tm in body.calls():
+            if any(l in t for a in tm["args"] for l in operand_locals(a)):
+                if tm["dest"]["l"] not in t:
+                    t.add(tm["dest"]["l"])
+                    changed = True
+                # &mut arguments may receive the taint
+                for a in tm["args"]:
+                    for l in operand_locals(a):
+                        if l not in t and "&mut" in body.local_ty(l)[:5]:
+                            t.add(l)
+                            changed = True
+    sinks = []
+    for bi, tm in body.calls():
+        for i, a in enumerate(tm["args"]):
+            if any(l in t for l in operand_locals(a)):
+                sinks.append((bi, callee_of(tm), i))
+    return t, sinks, 0 in t
